@@ -23,7 +23,8 @@ def _run(which, echo_on):
         def wrap(name, fn):
             def f(*a, **k):
                 state["n"] += 1
-                state["log"].append(name)
+                # the function's own restore is the tcsetattr that is handed the attributes found on entry
+                state["log"].append(name + "(restore)" if name == "termios.tcsetattr" and len(a) >= 3 and list(a[2]) == list(before) else name)
                 hit = state["fail_at"] == state["n"]
                 if hit and not state["after"]:
                     raise state["exc"]()
@@ -63,7 +64,7 @@ def _run(which, echo_on):
         if which == "query_terminal":
             last_restore = state.get("nested_end", n_calls) + 1
         else:
-            last_restore = max(i for i, nm in enumerate(log, 1) if nm == "termios.tcsetattr")
+            last_restore = max(i for i, nm in enumerate(log, 1) if nm == "termios.tcsetattr(restore)")
         for k in range(1, n_calls + 1):
             if k >= last_restore:
                 continue        # inside the function's own `finally`
@@ -82,7 +83,7 @@ def _run(which, echo_on):
                     this_log = state["log"]
                     if which == "query_terminal" and state["nested_end"] is not None and k > state["nested_end"]:
                         continue
-                    if which != "query_terminal" and k == len(this_log) and this_log[-1] == "termios.tcsetattr":
+                    if which != "query_terminal" and k == len(this_log) and this_log[-1] == "termios.tcsetattr(restore)":
                         continue
                     if k > len(this_log):
                         continue        # this run made fewer external calls: no fault was injected
